@@ -172,3 +172,24 @@ package dns
 //@   ensures nofq:  len(s) > 0 && !IsFqdnSpec(s) ==> err != nil
 //@   ensures acc:   !compress && err == nil && len(s) > 0 ==> ns63(s, 0, 0, false)
 //@   ensures rng:   err == nil && len(s) > 0 ==> off <= off1 && off1 <= len(msg)
+
+// Compression pointers are offsets from the start of the message (RFC 1035 4.1.4): every hand-written helper that
+// packs or unpacks a name hands the name codec the message buffer itself - not a sub-slice that starts at the RDATA -
+// and the absolute offset, so offsets entered in the compression map and pointers followed on input mean the same
+// thing everywhere.  (The generated pack/unpack methods are matched structurally: offsets threaded, buffer passed on.)
+//@ func (*Question).pack [C04]
+//@   callsite "packDomainName" whole: ref(arg1) == ref(msg) && sliceoff(arg1) == sliceoff(msg) && len(arg1) == len(msg) && arg2 == off
+//@ func (RR_Header).packHeader [C04]
+//@   callsite "packDomainName" whole: ref(arg1) == ref(msg) && sliceoff(arg1) == sliceoff(msg) && len(arg1) == len(msg) && arg2 == off
+//@ func packDataDomainNames [C04]
+//@   callsite "packDomainName" whole: ref(arg1) == ref(msg) && sliceoff(arg1) == sliceoff(msg) && len(arg1) == len(msg) && arg2 == off
+//@ func packIPSECGateway [C04]
+//@   callsite "packDomainName" whole: ref(arg1) == ref(msg) && sliceoff(arg1) == sliceoff(msg) && len(arg1) == len(msg) && arg2 == off
+//@ func unpackQuestion [C04]
+//@   callsite "UnpackDomainName" whole: ref(arg0) == ref(msg) && sliceoff(arg0) == sliceoff(msg) && arg1 == off
+//@ func unpackHeader [C04]
+//@   callsite "UnpackDomainName" whole: ref(arg0) == ref(msg) && sliceoff(arg0) == sliceoff(msg) && arg1 == off
+//@ func unpackDataDomainNames [C04]
+//@   callsite "UnpackDomainName" whole: ref(arg0) == ref(msg) && sliceoff(arg0) == sliceoff(msg) && arg1 == off
+//@ func unpackIPSECGateway [C04]
+//@   callsite "UnpackDomainName" whole: ref(arg0) == ref(msg) && sliceoff(arg0) == sliceoff(msg) && arg1 == off
